@@ -61,9 +61,9 @@ def one_head_invariant(t, bad):
                 bad('one-head', 'children of %s carry head flags %r' % (x.data['label'], flags))
 
 
-def check_negra(mtj):
+def check_negra(mtj, order=None):
     mt = model.MT.from_json(mtj)
-    case = {'negra': mtj}
+    case = {'negra': mtj, 'order': order}
     out = []
 
     def bad(kind, detail):
@@ -71,7 +71,7 @@ def check_negra(mtj):
                     'detail': '%s on %s' % (detail, model.mt_str(mt.root, mt.toks)),
                     'what': 'negra_mark_heads: ' + kind})
     try:
-        t = build(mt)
+        t = build(mt, child_order=order)
         r = transform.negra_mark_heads(t)
     except Exception as e:
         bad('exception', '%s: %s' % (type(e).__name__, e))
@@ -174,7 +174,7 @@ def check_reject():
 def check_case(case):
     with quiet():
         if 'negra' in case:
-            return check_negra(case['negra'])[0]
+            return check_negra(case['negra'], case.get('order'))[0]
         if 'rule' in case:
             return check_rule(case['rule'])
         return check_reject()
@@ -204,7 +204,7 @@ def run_chunk(chunk):
         if chunk['kind'] == 'negra':
             for sh, k in sweep.iter_shapes(chunk):
                 for mt in edge_assignments(sh):
-                    vs, nontriv = check_negra(mt.to_json())
+                    vs, nontriv = check_negra(mt.to_json(), None if res.evals % 2 else 'rev')
                     res.evals += 1
                     res.nontrivial += 1 if nontriv else 0
                     res.outcome((model.mt_str(mt.root, mt.toks), len(vs)))
